@@ -98,6 +98,8 @@ pub fn canon_opt(nodes: &[Node], obj: &Value, no_segments: bool) -> Result<Vec<C
                             m.insert(k.clone(), x.as_f64());
                         }
                     }
+                    // cardinality is a sketch estimate: two partitions may differ within its error
+                    if *kind == MK::Cardinality { m.insert("__sketch".into(), Some(1.0)); }
                     CR::Metric(m)
                 }
             },
@@ -458,6 +460,14 @@ pub fn same_result(a: &[CR], b: &[CR]) -> Result<(), String> {
                 for (k, v1) in m1 {
                     let v2 = m2.get(k).ok_or(format!("component {k} missing"))?;
                     let exact = matches!(k.as_str(), "count" | "min" | "max");
+                    if m1.contains_key("__sketch") {
+                        // HLL (lg_k = 11): exact for small sets, about 2.3 % standard error beyond
+                        match (v1, v2) {
+                            (Some(p), Some(q)) if (p - q).abs() <= 0.06 * p.abs().max(q.abs()) && (p.max(*q) > 150.0 || p == q) => continue,
+                            (None, None) => continue,
+                            _ => return Err(format!("cardinality estimates {v1:?} vs {v2:?}")),
+                        }
+                    }
                     match (v1, v2) {
                         (None, None) => {}
                         (Some(p), Some(q)) if p == q || (!exact && (p - q).abs() <= 1e-9 * p.abs().max(q.abs()).max(1.0)) => {}
